@@ -9,6 +9,7 @@ CONSTANTS
   BFaults <- BFaultsNone
   Ras <- RasNone
   Modes = {"call", "exec"}
+  RunGaps <- GapsNone
   NRuns = 2
   Configs <- ConfigsC01
   RecordHist = FALSE
